@@ -14,16 +14,16 @@ BUILT = {
             "noise/cryptography executed concretely (untraced) with two concrete keys; ideal AEAD for symbolic ciphertexts; independent responder vf/noise_ref.py"),
     "C04": ("DESIGN.md 3/C04", "data-phase deviations (replace by arbitrary bytes, drop, duplicate, swap, truncate) from a symbolic nonce with the ideal AEAD, handshake-phase deviations with symbolic content (selector, names, error text, marker byte, truncation lengths, wrong key, wrong framing), real-cipher bit flips, key strings over a 13-character alphabet",
             "ideal AEAD (authenticity + nonce binding assumed); base64 decoding is C code: key strings are solver-enumerated over a tiny alphabet; two concrete keys"),
-    "C05": ("DESIGN.md 3/C05", "every sequence of 3 (quick) / 4 (thorough) events from a 21-event alphabet after each of 7 lifecycle stages on the real APIConnection over a virtual-time asyncio loop; monitor on every state assignment",
+    "C05": ("DESIGN.md 3/C05", "every sequence of 3 events (quick: 18-event alphabet; thorough: 23 events, plus 4 events over the reduced alphabet from the main stages) after each of 8 lifecycle stages (incl. the real resolver with an mDNS request in flight) and the noise-handshake stage, on the real APIConnection over a virtual-time asyncio loop; monitor on every state assignment",
             "SimLoop (real asyncio scheduler, virtual clock) and SimTransport model; resolver/connect stubs; schedule integers are solver-forked"),
     "C06": ("DESIGN.md 3/C06", "real connect with symbolic HelloResponse/ConnectResponse fields (major/minor in [0,2^32), names of length <= 2, password verdict), symbolic expected name, 4 response orders/chunkings, login on/off, plaintext and noise",
             "pbstub doubles carry symbolic fields through the real dispatch; noise handshake concrete against vf/noise_ref.py"),
-    "C07": ("DESIGN.md 3/C07", "every sequence of 3/4 events (close causes in every order and multiplicity, same-chunk/same-turn combinations, ping timeout) after 4/5 lifecycle stages; count and argument of the stop callback vs a three-valued reference",
+    "C07": ("DESIGN.md 3/C07", "every sequence of 3 events (thorough: also 4 events over a reduced alphabet) of close causes in every order and multiplicity, same-chunk/same-turn combinations and ping timeout, after 4/5 lifecycle stages and the noise-handshake stage; count and argument of the stop callback vs a three-valued reference",
             "SimLoop/SimTransport; ties between a disconnect() call and another close cause in one loop turn are don't-care"),
-    "C08": ("DESIGN.md 3/C08", "every sequence of 3/4 events after 6 lifecycle stages; after any close: transports and owned sockets closed, no live timer, no pending call, no write and no subscriber delivery in CLOSED",
+    "C08": ("DESIGN.md 3/C08", "every sequence of 3 events (thorough: also 4 over a reduced alphabet) after 7 lifecycle stages (incl. the real resolver) and the noise-handshake stage; after any close: transports and owned sockets closed, no live timer (incl. request timers), no pending call, no write and no subscriber delivery in CLOSED; a connection whose transport is gone must be CLOSED",
             "SimLoop/SimTransport/FakeSock; sockets whose hand-over raced a task cancellation never reached the connection and are excluded"),
-    "C09": ("DESIGN.md 3/C09", "every sequence of 3/4 fault/device/user events after 6 stages (+ noise handshake stage), then virtual time runs until every call ended: documented time bounds, APIConnectionError-only outcomes, no unrequested cancellation, no deadlock, first fatal cause seen by waiting calls",
-            "virtual clock (callbacks take zero time); one address group; first-cause reference for garbage / undecodable / noise-marker / EOF"),
+    "C09": ("DESIGN.md 3/C09", "every sequence of 3 fault/device/user events (thorough: also 4 over a reduced alphabet) after 7 stages (+ noise handshake stage, + two address groups), then virtual time runs until every call ended: documented time bounds, APIConnectionError-only outcomes, no unrequested cancellation, no deadlock, first fatal cause seen by waiting calls",
+            "virtual clock (callbacks take zero time); one or two address groups; first-cause reference for garbage / undecodable / noise-marker / EOF / the disconnect wait running out"),
     "C10": ("DESIGN.md 3/C10", "each real keep-alive callback is exactly one step of the reference automaton from every abstract state (K symbolic, instants symbolic), end-to-end runs with 1-3 (quick) / up to 5 (thorough) arrivals at symbolic times vs the automaton, z3 BMC of the automaton and the closed-form window",
             "integer time grid (K*4.5 exact); the float product K*4.5 in the constructor is checked for 12 concrete K only; ties timer-first"),
     "C11": ("DESIGN.md 3/C11", "two concurrent request-response calls (4 predicate/type configurations with symbolic parameters), every sequence of 4/5 events (messages with symbolic keys, loop turns, timers, caller cancellation, close, late start of the second call) vs an independent reference model; leftovers audit",
@@ -42,7 +42,7 @@ BUILT = {
             "pbstub doubles; SimLoop; float fix-up fields left at 0.0 (C14)"),
     "C18": ("DESIGN.md 3/C18", "real ReconnectLogic on the virtual-time loop with a fake client and fake zeroconf: event sequences of attempt outcomes, session ends, mDNS records, start/stop; monitors for single attempt/session, back-off instants, callback alternation, clean stop; z3 check of the back-off table",
             "FakeClient (the client itself is C05-C09/C19's subject); float pow rounding argued by interval, not solved"),
-    "C19": ("DESIGN.md 3/C19", "real APIClient over 9 concrete histories (earlier sessions/attempts) x every sequence of 3/4 client calls and device/fault events; acceptance of start/connect vs the monitor's model; commands/subscriptions/requests without a live session must raise and write nothing",
+    "C19": ("DESIGN.md 3/C19", "real APIClient over 12 concrete histories (earlier sessions/attempts, an attempt still resolving, a stop callback that reconnects) x every sequence of 3/4 client calls and device/fault events; acceptance of start/connect vs the monitor's model (close causes tracked by the harness); commands/subscriptions/requests without a live session must raise and write nothing; every call ends with a result or a connection error",
             "SimLoop/SimTransport; monitor model independent of APIClient internals"),
     "C20": ("DESIGN.md 3/C20", "host_is_name_part/address_is_local on symbolic strings; real async_resolve_host over forked host forms x mDNS outcomes x OS-resolver outcomes vs the decision table; zeroconf ownership over operation sequences",
             "stub AsyncServiceInfo / AsyncZeroconf / getaddrinfo; host strings chosen by fork from small tables"),
